@@ -434,7 +434,7 @@ func c09Mutate(rng *Rng, ts []efp.Token) []efp.Token {
 // kept so that a regression is reproduced deterministically)
 var c09EvWitnesses = []string{"({1}+SUM(2))", "'*'(1 2+3)", "SUM(1 '*'(2+3))", "'-'(1 2-3)", "'='(1 2=3)", "({1;2}+SUM(2)+(3))",
 	"1)", "SUM(1))", ")", "{1}+SUM(2)", "SUM((1,2))", "SUM(,)", "{SUM(1)}", "SUM({1}{2})", "1%%", "--1", "SUM(A1:A2,A1)", "SUM(A1:A2 A1)",
-	"SUM(({1,2}))", "SUM((1+{1,2}))", "LOOKUP((2,/{1,2,3},{\"a\",\"b\",\"c\"})", "SUM(0:0)", "1:0", "SUM(1:1048577)", "{(SUM(1))}", "MAX({(SUM(1))})", "{1,(SUM(1))}", "{(1)}", "1+", "SUM(1+)", "1*", "-", "(1+)", "1&", "SUM(1,)", "SUM(+)", "1<", "(({1}))", "SUM(({1}))", "({1})+SUM(1,(2))", "'*'((1 2)+3)", "SUM('*'(1,2) 3+4)"}
+	"SUM(({1,2}))", "SUM((1+{1,2}))", "LOOKUP((2,/{1,2,3},{\"a\",\"b\",\"c\"})", "SUM(0:0)", "1:0", "SUM(1:1048577)", "{(SUM(1))}", "SUM({(SUM(1))})", "{1,(SUM(1))}", "{(1)}", "SUM(({{1}}))", "({{1}})", "SUM({{1}})", "{SUM(1,2)}", "SUM({SUM(1,2)},{3})", "1+", "SUM(1+)", "1*", "-", "(1+)", "1&", "SUM(1,)", "SUM(+)", "1<", "(({1}))", "SUM(({1}))", "({1})+SUM(1,(2))", "'*'((1 2)+3)", "SUM('*'(1,2) 3+4)"}
 
 func c09EvStream(r *Run, rng *Rng) {
 	f := c09EvFile()
@@ -840,10 +840,12 @@ func runC09(r *Run, rng *Rng, replay string) {
 		c09Replay(r, replay)
 		return
 	}
-	c09EvStream(r, rng)
-	c09CycStream(r, rng)
-	c09CycFlush(r)
-	c09OpnStream(r, rng, nil)
+	if os.Getenv("VH_C09_ONLY") == "" { // VH_C09_ONLY=F1,F2: only the function product of these functions (development aid)
+		c09EvStream(r, rng)
+		c09CycStream(r, rng)
+		c09CycFlush(r)
+		c09OpnStream(r, rng, nil)
+	}
 	c09WorkerStreams(r, rng)
 	for _, s := range r.opsSample(6) {
 		r.Sample(s)
